@@ -118,6 +118,13 @@ func init() {
 		return Val{L: []*Term{tr.bytesEqual(args[0], args[1])}}
 	}
 	libEffects["bytes.Equal"] = [2]bool{false, false}
+	libModels["bytes.HasPrefix"] = func(tr *FnTr, x ssa.Value, args []Val, cc *ssa.CallCommon) Val {
+		tr.usedModel("bytes.HasPrefix (len(s) >= len(prefix) and the first len(prefix) bytes agree)")
+		s, p := args[0], args[1]
+		head := Val{T: s.T, L: []*Term{s.L[0], s.L[1], p.L[2], p.L[2]}}
+		return Val{L: []*Term{tr.vc.Def("has_prefix", And(Ge(s.L[2], p.L[2]), tr.bytesEqual(head, p)))}}
+	}
+	libEffects["bytes.HasPrefix"] = [2]bool{false, false}
 	libModels["math/bits.Mul64"] = func(tr *FnTr, x ssa.Value, args []Val, cc *ssa.CallCommon) Val {
 		tr.usedModel("math/bits.Mul64")
 		p := tr.vc.Def("mul64", tr.mulTerm(args[0].L[0], args[1].L[0]))
